@@ -50,6 +50,9 @@ func coreLocks(tier string) []RunSpec {
 	for k := 0; k < 4; k++ {
 		out = append(out, RunSpec{Profile: "core:wallet-helpers", Params: map[string]int{"helpers": 1, "k": k}})
 	}
+	for k := 0; k < 2; k++ {
+		out = append(out, RunSpec{Profile: "core:wallet-helpers-keys-without-threshold", Params: map[string]int{"helpers": 1, "pkonly": 1, "k": k}})
+	}
 	// two SIG_ALL inputs under different conditions, each validly signed, outputs signed for the first
 	for k := 0; k < 4; k++ {
 		out = append(out, RunSpec{Profile: "core:sigall-mixed-conditions", Params: map[string]int{"mixedcond": 1, "flag": 1, "lt": 0, "wv": 3, "ov": 0, "k": k}})
@@ -613,7 +616,12 @@ func helpersStep(ww *WW, htlc bool, prop string) {
 	sigall := T.Chance("help.sigall", 1, 2)
 	nsig := T.Chance("help.nsig", 1, 2)
 	fees := T.Chance("help.fees", 1, 2)
-	ww.op(fmt.Sprintf("helpers htlc=%v sigall=%v nsig=%v", htlc, sigall, nsig))
+	// keys listed on an HTLC without a threshold: the helper adds the preimage alone
+	pkonly := htlc && !sigall && !nsig && T.Chance("help.pkonly", 1, 2)
+	if htlc && ww.rc.P("pkonly", 0) == 1 {
+		sigall, nsig, pkonly = false, false, true
+	}
+	ww.op(fmt.Sprintf("helpers htlc=%v sigall=%v nsig=%v pkonly=%v", htlc, sigall, nsig, pkonly))
 	toKey := ww.node(to).W.GetReceivePubkey()
 	pre := randHex(32)
 	var proofs cashu.Proofs
@@ -627,6 +635,9 @@ func helpersStep(ww *WW, htlc bool, prop string) {
 			if nsig || sigall {
 				tags.NSigs = 1
 				tags.Pubkeys = []*btcec.PublicKey{toKey}
+			} else if pkonly {
+				tags.Pubkeys = []*btcec.PublicKey{toKey}
+				ww.rc.S.Probe(prop + "_helper_pubkeys_without_threshold")
 			}
 			proofs, err = wl.HTLCLockedProofs(amount, ww.mintURL(mint), pre, tags, fees)
 		} else {
@@ -652,8 +663,8 @@ func helpersStep(ww *WW, htlc bool, prop string) {
 	ww.rc.S.Probe(prop + "_helper_redeem")
 	ww.rc.Nontrivial = true
 	if rerr != nil && proofs.Amount() > ww.feeOfProofs(mint, proofs) {
-		ww.W.Book.Violate(prop+".helper_rejected", fmt.Sprintf("htlc=%v|sigall=%v|nsig=%v", htlc, sigall, nsig),
-			"the witness produced by the library's own helpers (htlc=%v sigall=%v n_sigs=%v) was refused: %v", htlc, sigall, nsig, rerr)
+		ww.W.Book.Violate(prop+".helper_rejected", fmt.Sprintf("htlc=%v|sigall=%v|nsig=%v|pkonly=%v", htlc, sigall, nsig, pkonly),
+			"the witness produced by the library's own helpers (htlc=%v sigall=%v n_sigs=%v keys-without-threshold=%v) was refused: %v", htlc, sigall, nsig, pkonly, rerr)
 	}
 }
 
